@@ -124,10 +124,12 @@ class Esc:
 
     def sink_of_handler(self, f: FuncInfo, h: ast.ExceptHandler) -> str:
         names = []
+        # a bound method cached in a local (``log_error = _LOGGER.error``) is that method
+        cached = {t.id: a.value.attr for a in ast.walk(f.node) if isinstance(a, ast.Assign) and len(a.targets) == 1 and isinstance(a.value, ast.Attribute) for t in a.targets if isinstance(t, ast.Name)}
         for s in h.body:
             for n in ast.walk(s):
                 if isinstance(n, ast.Call):
-                    names.append(last_name(n))
+                    names.append(cached.get(n.func.id, last_name(n)) if isinstance(n.func, ast.Name) else last_name(n))
                     lbl = self.calls.state_ctor_label(f, n)
                     if lbl is not None and repr(lbl) == 'ProcessState.EXCEPTED':
                         return 'excepted-state'
